@@ -1509,6 +1509,10 @@ func (is *iterScanner) Next() bool {
 	if iter.pos >= iter.numRows {
 		if iter.next != nil {
 			is.iter = iter.next.fetch()
+			if n := len(is.iter.meta.columns); n != len(is.cols) {
+				// the next page describes its own columns
+				is.cols = make([][]byte, n)
+			}
 			return is.Next()
 		}
 		return false
